@@ -296,12 +296,21 @@ void h_persistent_store(void)
   VERIF_CANARY();
 }
 
-void h_persistent_writen(void)
+/* persistent_writen has two call sites (its precondition): the checksum field
+ * and the data area; one target each, together they cover the precondition */
+void h_persistent_writen_field(void)
 {
   PS_STATE()
-  IN(uint32_t, in_addr) IN(size_t, in_k) IN(uint8_t, in_item)
-  ASSUME((uint64_t)in_addr >= g_ps_lo && (uint64_t)in_addr <= g_ps_hi && (uint64_t)in_k <= g_ps_hi - (uint64_t)in_addr);
-  persistent_writen(&st, in_addr, in_item, in_k);
+  IN(uint8_t, in_item)
+  persistent_writen(&st, in_caddr, in_item, in_wide ? 4u : 2u);
+  VERIF_CANARY();
+}
+
+void h_persistent_writen_data(void)
+{
+  PS_STATE()
+  IN(uint8_t, in_item)
+  persistent_writen(&st, (uint32_t)g_ps_dlo, in_item, in_dsize);
   VERIF_CANARY();
 }
 
